@@ -239,6 +239,11 @@ pub fn diverging_branch_programs() -> Vec<String> {
         "for x in a { x }", "if a { 1 }", "while a { break }", "match a { 1 => 1, => 2, }", "match a { x: int => x, => 2, }", "if x: (int, int) = a { x.0 }", "c := mut 1; c = a", "c := mut 1; c += a",
         "a @ (x: int) -> int { return x }", "a ? (x: int) -> bool { return true }", "a ? int", "a $ 0 (x: int, y: int) -> int { return x }", "[1]~ @ a", "[1]~ $ a (x: int, y: int) -> int { return x }",
         "g := () -> any { return a.0 }; g()", "g := () -> any { (p, q) := a; return p }; g()",
+        "a \\ (x: int) -> bool { return true }", "(a \\ (x: int) -> bool { return true }).0", "[1]~ \\ a", "a ? int $]", "a @ (x: int) -> int { return x } $]",
+        "a ? (x: int) -> bool { return true } $]", "a~ $]", "a $&&", "a $||", "a $&", "a $|", "a $*", "a[0][0]", "a.0()", "a()()", "a[0]()", "*a()", "*a.0", "**a", "a = 1",
+        "a += 1", "a /= 0", "a[0:1][0]", "a.0.1", "a $ 0 (x: int, y: int) -> int { return x } + 1", "a ? int ? string $]", "(a, a).0.0", "[a][0].0", "struct{f := a}.f.0",
+        "a == 1", "1 == a", "a != a", "a < 1", "a || true", "a | 1", "a ^ 1", "a >> 1", "a % 2", "a / 2", "a - 1", "a * 2", "2 ** a",
+        "return a", "return a.0", "x := a; x.0", "(p, q) := (a, a); p.0", "if true { a.0 }", "match 1 { 1 => a.0, => 2, }", "for x in [1]~ { a.0 }",
     ];
     // expression uses are also bound to a name and used again (binding asks for the static type of the expression)
     let mut all_uses: Vec<String> = uses.iter().map(|u| u.to_string()).collect();
